@@ -1,7 +1,7 @@
 (** C03 -- Leaving a region re-synchronises the tool position. *)
 From Coq Require Import Reals String List Bool.
 From ER Require Import Base.Num Model.Geometry Model.Axis Model.Filter Spec.Printer
-  Proofs.FilterLemmas Proofs.Transparent Proofs.Deferred Proofs.Outputs Proofs.Track Proofs.FSync Proofs.Sync Proofs.MotionProps.
+  Proofs.FilterLemmas Proofs.Transparent Proofs.Deferred Proofs.Outputs Proofs.Track Proofs.FSync Proofs.Sync Proofs.MotionProps Proofs.Depth.
 Import ListNotations.
 Open Scope R_scope.
 
@@ -48,9 +48,17 @@ Theorem C03_travel_height : forall g m c0 (s1 : fstate R) (F U' : printer R), ex
   qz (run_outs g m F before_xy) = Rmax (qz F) (qz U').
 Proof. exact exit_travel_height. Qed.
 
+(** non-vacuity: the dialect predicates of the theorems above are met by a concrete program (print, retract, travel into
+    and out of the region area, recover, print) for any region set *)
+Theorem C03_premises_satisfiable : forall rs : list (region R),
+  wf_hist ex_cfg (mkSim (init_state rs) init_printer init_printer) ex_hist.
+Proof. intros rs. exact (proj1 (depth_premises_satisfiable rs)). Qed.
+
+
 Print Assumptions C03_move_outside_closes.
 Print Assumptions C03_resync.
 Print Assumptions C03_tracking.
 Print Assumptions C03_lastPosition.
 Print Assumptions C03_exit_sequence.
 Print Assumptions C03_travel_height.
+Print Assumptions C03_premises_satisfiable.
